@@ -597,6 +597,9 @@ def run(ctx):
     # the values of one properties response are its own (C14.c's rule, on the class this property reads back from)
     from ..shared import check as shared_check
     shared_check(ctx, "C16.e", [prog.cls(f"{CMD}.PropertiesResponse")], "the properties response")
+    # ... the capabilities _update_capabilities sees are the merged ones (first page + additional page, in that direction): C15.d's obligation
+    from . import c15
+    ctx.import_rules(c15, "t15", only=("C15.d",))
     ctx.require_min("advertised_ids", 4)
     # read-back: a property the response carries - whatever its value, also False / 0 / OFF - replaces the backing attribute; one it does
     # not carry leaves it alone (the gate is `get_property(id) is not None`, not the value's truth)
